@@ -26,7 +26,7 @@ type Actor struct {
 	// Busy is set by the actor while it is inside a call that holds a sync mutex
 	// other actors may need (see Sched.Blockers).
 	Group   string
-	Adopted bool // a goroutine of the system under test parked at an adoption site
+	Adopted bool        // a goroutine of the system under test parked at an adoption site
 	Arg     interface{} // the argument the adoption site passed (e.g. a worker id)
 }
 
